@@ -685,6 +685,7 @@ type wlP struct {
 	UID         string
 	WType       string
 	ExtraLabel  string
+	IDLabel     string // a *label* with the rollout-id key (the webhook reads the annotation only; a label with that key means nothing to it)
 	ExtraAnno   string
 	Replicas    *int
 	RolloutID   string
@@ -737,6 +738,9 @@ func whMeta(p *wlP) metav1.ObjectMeta {
 	}
 	if p.ExtraLabel != "" {
 		lab["team"] = p.ExtraLabel
+	}
+	if p.IDLabel != "" {
+		lab[rolloutIDKey] = p.IDLabel
 	}
 	if p.StableRev != "" {
 		lab[stableRevKey] = p.StableRev
@@ -981,6 +985,9 @@ func (g *whG) workload(combo string) *wlP {
 	}
 	if g.p(30) {
 		p.ExtraLabel = "blue"
+	}
+	if g.p(20) {
+		p.IDLabel = g.pick("1", "2", "legacy")
 	}
 	if g.p(30) {
 		p.ExtraAnno = "n1"
